@@ -11,7 +11,10 @@ import MsqModel.Print
   flagged node at ANY position and depth makes the whole print fail (no text is produced).
 * `eq_E … eq_Q` — **irrelevance**: two dialects print a tree identically unless the tree contains a node
   at which the two dialects answer one of the printer's five dialect tests differently.
-* `tot_E … tot_Q` — **totality**: a tree without locally failing nodes is printed.
+* `res_E … res_Q`, `res_Stmt` — **which errors**: if at every unflagged node the printer's own steps succeed or fail within
+  an error set `E`, the whole print succeeds or fails within `E` (`E = ∅`: totality; `E = {notSupported}`: the refusal kind).
+* `none_E … none_Q` — a predicate that flags nothing finds nothing.
+* `anyStmt`, `bad_Stmt` — the same for statements (`prStmt`), over every child every dialect prints.
 -/
 namespace PR
 open Ast
